@@ -42,6 +42,20 @@ def render_files(macros, stream_text, layout):
         return files
     if layout == "oneline":        # all definitions on one line of one file
         return {"m": " ".join(defs) + "\n" + stream_text + "\n"}
+    if layout == "bodyinc":        # the second half of every macro body stands in an included file of its own (include inside DEFINE)
+        files = {}
+        lines = []
+        for k, m in enumerate(macros):
+            pat = " ".join(SLOT[p["s"]] if "s" in p else ttext(p["l"]) for p in _seq(m["pat"]))
+            body = [("$%d" % b["ins"]) if "ins" in b else ("#%d" % b["tmp"]) if "tmp" in b else ttext(b) for b in _seq(m["body"])]
+            if len(body) >= 2:
+                h = len(body) // 2
+                files["tail%d" % k] = " ".join(body[h:]) + "\n"
+                lines.append('DEFINE PRIO %d %s AS %s include "tail%d" END DEFINE' % (m["prio"], pat, " ".join(body[:h]), k))
+            else:
+                lines.append("DEFINE PRIO %d %s AS %s END DEFINE" % (m["prio"], pat, " ".join(body)))
+        files["m"] = "\n".join(lines) + "\n" + stream_text + "\n"
+        return files
     if layout == "longname":       # definitions in a file with a long, path-like name
         return {"m": 'include "%s"\n%s\n' % (LONGNAME, stream_text), LONGNAME: "\n".join(defs) + "\n"}
     return {"m": "\n".join(defs) + "\n" + stream_text + "\n"}
@@ -121,7 +135,7 @@ def replay(chk, th, fam, macros, cases, what, layout="lines"):
         else:
             files = render_files(macros, " ".join(ttext(t) for t in stream), layout)
         inputs.append({"i": i, "files": files, "main": "m",
-                       "passes": list(range(1, budget + 1))})
+                       "passes": list(range(1, budget + 1)) or [0]})
         keys.append(key)
     n = 0
     temps_seen = set()
@@ -152,6 +166,9 @@ def replay(chk, th, fam, macros, cases, what, layout="lines"):
                 steps = [_seq(s) for s in _seq(c["steps"])]
                 ren = {}
                 good = True
+                if budget == 0 and not match_stream(reals[0], json.loads(sj), ren):
+                    good = False
+                    reasons.append("budget 0: the stream must come back unchanged, apply_macros %s" % " ".join(t for _, t in reals[0]))
                 for k in range(1, budget + 1):
                     spec_k = steps[k - 1] if k <= len(steps) else (steps[-1] if steps else json.loads(sj))
                     if not match_stream(reals[k - 1], spec_k, ren):
